@@ -171,7 +171,7 @@ CLAIMED['C19'] = (
     'enumeration stands in and is labelled as such.  YAML parsing, file I/O and the PEM library are outside.  '
     'contracts/C19_NOTES.md lists grammar, bounds and assumptions.',
     'DESIGN.md section 6 C19')
-OVERRIDE['C19'] = ('exploration', 'bounded deterministic enumeration of configuration dictionaries against an independent reader '
+OVERRIDE['C19'] = ('other', 'bounded deterministic enumeration of configuration dictionaries against an independent reader '
                    '(labelled bounded) + exhaustive exception-escape scan of configuration.py (eval-ast)')
 
 CLAIMED['C16'] = (
@@ -184,8 +184,13 @@ CLAIMED['C16'] = (
     'repaired); an IKE_SA that ended is removed and its CHILD_SAs are deleted in the kernel (delete_child_sas: one '
     'DELSA pair per tracked CHILD_SA, none stays tracked); a rekeyed IKE_SA has its successor listed; a successor '
     'that is None is never appended.  Frame facts: my_spi is written only by the constructor, ike_sas only by the '
-    'controller.',
-    'Not decided: kernel-expiry routing (process_expire / _get_ike_sa_by_child_sa_spi read ctypes objects), the '
+    'controller.  '
+    'Kernel expiry: IkeSaController._get_ike_sa_by_child_sa_spi (verified, nested loop invariants) returns the FIRST '
+    'IKE_SA of the table one of whose CHILD_SAs has the SPI as inbound or outbound SPI and None iff there is none; '
+    'IkeSa.process_expire (verified) ignores an unknown SPI without change, queues while an exchange is outstanding, '
+    'turns a hard expiry into a delete request for exactly the owning CHILD_SA and a soft one into a rekey request that '
+    'replaces exactly it with the same selectors, mode, lifetime and configured proposal.',
+    'Not decided: IkeSaController.process_expire itself (three lines reading a ctypes event), the '
     'retransmission-timeout removal in main_loop (socket loop, outside the verifier; note: it removes from the list it '
     'iterates over), the status query, and re-establishment of Inv(table) after the step (an authenticated response with '
     'an unknown exchange type leaves Inv(IkeSa) with the ID advanced, observation F14).' + TIERB_NOTE,
@@ -304,13 +309,27 @@ CLAIMED['C15'] = (
     'process_acquire discards its result.)' + TIERB_NOTE,
     'DESIGN.md section 6 C15')
 
+CLAIMED['C09'] = (
+    'Proof of the single-endpoint clauses only, over every Inv(IkeSa) state and every input: (1) no exception escapes an '
+    'entry point -- process_message raises nothing but InvalidSyntax / UnsupportedCriticalPayload and then has changed '
+    'nothing, _process_request / _process_response (every handler exception, including IkeSaStateError and any other '
+    'Exception, is caught and ends in a notify or in DELETED), the triggers process_acquire / process_expire and the '
+    'three timer functions raise nothing at all (verified, raises = {}); (2) steps the state machine does not allow are '
+    'refused: _check_in_states raises IkeSaStateError exactly when the state is not in the list, the verified handlers '
+    'call it first (process_ike_auth_response acts only in AUTH_REQ_SENT), the triggers act only in INITIAL / ESTABLISHED '
+    'and queue otherwise, request generators assert their start state; (3) nobody waits for ever: after a handled '
+    'response either no request is outstanding or the next one has been armed with the retransmission timer, and an '
+    'unanswered request ends in DELETED after MAX_RETRANSMISSIONS; queued triggers are replayed when ESTABLISHED is '
+    'reached again.',
+    'NOT decided (and the larger part of C09): how collisions are answered (TEMPORARY_FAILURE, CHILD_SA_NOT_FOUND -- in the '
+    'CREATE_CHILD_SA / INFORMATIONAL handlers, ASSUMED contracts) and that the two endpoints hold the same IKE_SAs and '
+    'CHILD_SAs once everything in flight has been delivered or timed out: statements over every interleaving of two '
+    'state machines, which one-call contracts do not express.  Finding F13 of DESIGN.md section 7 (AssertionError from '
+    'generate_delete_child_sa_request in AUTH_REQ_SENT, swallowed into DELETED) is visible in the verified handler as an '
+    'allowed exceptional path, not as a violation of a stated clause.' + TIERB_NOTE,
+    'DESIGN.md section 6 C09')
+
 NA_REASON = {
-    'C09': 'not decided: collisions, absence of deadlock and agreement of the two endpoints after quiescence are statements '
-           'over every interleaving of two state machines, i.e. over histories of the eight exchange handlers; contracts '
-           'decide one call of one function, and the handlers themselves are ASSUMED contracts in this delivery.  The '
-           'per-function clauses that bear on C09 are proved under C08 / C13 (_check_in_states; a handled response leaves '
-           'no request-outstanding state without an armed request; Inv(IkeSa) preservation by the Message-ID window).  '
-           'No other technique was substituted.',
 }
 NOT_YET ='not yet claimed: contracts for this property are still being brought under the verifier (DESIGN.md section 6)'
 
